@@ -4,6 +4,7 @@
 //	harness <component> gen  <seed> <nscripts> <maxops>   scripts (only "!" lines) on stdout
 //	harness <component> enum <bound...>                   exhaustive small-scope scripts on stdout
 //	harness <component> run                               scripts on stdin -> trace ("!", "?", "<" lines) on stdout
+//	harness <component> direct <seed> <tier> [args...]    runtime-only checks: DIRECT-FAIL / DIRECT-STAT lines
 //
 // Scripts are separated by lines "# script <k>".  Every random choice derives from the seed.
 package main
@@ -20,6 +21,8 @@ type component struct {
 	gen  func(r *rng, maxops int, w *bufio.Writer)       // one script
 	enum func(args []string, w *bufio.Writer)            // many scripts, each preceded by its "# script" line
 	run  func(script []string, w *bufio.Writer)          // one script -> trace lines
+	// optional: runtime-only checks no model can exhibit; prints DIRECT-FAIL / DIRECT-STAT lines
+	direct func(seed uint64, tier string, args []string, w *bufio.Writer)
 }
 
 var components = map[string]*component{}
@@ -48,6 +51,13 @@ func main() {
 		}
 	case "enum":
 		c.enum(os.Args[3:], w)
+	case "direct":
+		if c.direct == nil || len(os.Args) < 5 {
+			fmt.Fprintln(os.Stderr, "component has no direct mode (usage: harness <component> direct <seed> <tier>)")
+			os.Exit(2)
+		}
+		seed, _ := strconv.ParseUint(os.Args[3], 10, 64)
+		c.direct(seed, os.Args[4], os.Args[5:], w)
 	case "run":
 		sc := bufio.NewScanner(os.Stdin)
 		sc.Buffer(make([]byte, 1<<20), 1<<26)
